@@ -46,12 +46,14 @@ func check(prop, tier string) int {
 	case "C03", "C04":
 		code, err = rt.RunSeq(prop, tier)
 	case "C16":
-		code, err = gen.RunGen(prop, tier, cli.Subset(prop, tier, func(s cli.Scenario) bool { return s.Prior == "ownnoop" || (s.Prior == "own" && s.Args == "ok") }))
+		code, err = gen.RunGen(prop, tier, cli.Subset(prop, tier, func(s cli.Scenario) bool { return s.Prior == "ownnoop" || (s.Prior == "own" && s.Args == "ok") }), cli.FlagPlumbing(prop))
 	case "C14":
 		code, err = gen.RunGen(prop, tier, cli.Subset(prop, tier, func(s cli.Scenario) bool {
 			return strings.HasPrefix(s.Prior, "own") && s.Out != "stdout" && s.Fault == "none"
 		}))
-	case "C01", "C02", "C09", "C10", "C11", "C12", "C13", "C20":
+	case "C01", "C10":
+		code, err = gen.RunGen(prop, tier, cli.FlagPlumbing(prop))
+	case "C02", "C09", "C11", "C12", "C13", "C20":
 		code, err = gen.RunGen(prop, tier)
 	case "C15":
 		code, err = cli.RunCLI(prop, tier, gen.ExtraC15(tier))
